@@ -145,6 +145,9 @@ type Conn struct {
 
 	readEvents int32
 
+	// close the connection as soon as the write list has been flushed.
+	closeAfterFlush bool
+
 	dataHandler func(c *Conn, data []byte)
 
 	onConnected func(c *Conn, err error)
@@ -454,6 +457,26 @@ func (c *Conn) Close() error {
 //go:norace
 func (c *Conn) CloseWithError(err error) error {
 	return c.closeWithError(err)
+}
+
+// CloseAfterFlush closes the connection once all the data that Write, Writev
+// and Sendfile have accepted so far has been written to the socket; at once if
+// nothing is pending. Close, by contrast, discards pending data.
+//
+//go:norace
+func (c *Conn) CloseAfterFlush() error {
+	c.mux.Lock()
+	if c.closed {
+		c.mux.Unlock()
+		return nil
+	}
+	if len(c.writeList) > 0 {
+		c.closeAfterFlush = true
+		c.mux.Unlock()
+		return nil
+	}
+	c.mux.Unlock()
+	return c.closeWithError(nil)
 }
 
 // LocalAddr returns the local network address, if known.
@@ -942,6 +965,21 @@ func (c *Conn) flush() error {
 			_ = c.closeWithErrorWithoutLock(err)
 			return err
 		}
+	}
+
+	if c.closeAfterFlush {
+		// everything accepted before CloseAfterFlush has been written.
+		c.closed = true
+		if c.wTimer != nil {
+			c.wTimer.Stop()
+			c.wTimer = nil
+		}
+		if c.rTimer != nil {
+			c.rTimer.Stop()
+			c.rTimer = nil
+		}
+		_ = c.closeWithErrorWithoutLock(nil)
+		return nil
 	}
 
 	c.resetRead()
